@@ -183,6 +183,23 @@ CHECKS.update({
     },
 })
 
+CHECKS.update({
+    "C13": {
+        "engine": "SEQ", "category": "model_checking",
+        "technique": "explicit-state BFS over dynamics-assignment histories on real builders (states merged by selector map), with a plain-dict reference selector, spy builders that expose the variables each node receives, and numeric comparison with the public line-shape functions",
+        "text": "all assignment sequences of depth <= 3 (4) over selections by name / Particle / TwoBodyDecay / (transition, node) x {none, BW, BW+ff, analytic, two spy builders} on 26 reaction variants (1-3 resonances, same resonance in several topologies, symmetrised images, canonical L != J, four-body); in every state the real selector map, the exact set and arguments of spy atoms, the numeric chain amplitudes and the parameter defaults must equal the prediction",
+        "note": "states merged by selector map (formulate() is a function of it: C06); numeric comparison on a 4-point lattice; components of symmetrised chains (overwritten names) are not judged",
+        "design": "3/C13",
+    },
+    "C17": {
+        "engine": "SEQ", "category": "model_checking",
+        "technique": "explicit-state BFS over rename histories (states merged by composed rename map) on six models, against a reference renaming of the original attributes plus numeric evaluation from four-momenta",
+        "text": "every single-entry and curated two-entry rename map over a sub-alphabet containing every symbol role, sequences of depth 2 (3), given as dict / pairs / iterator; every attribute must equal the original with the composed map applied, in natural order, C01's invariant must hold, assumptions and untouched symbols preserved, the receiver unchanged, warnings exactly for unknown names, intensity from four-momenta unchanged, merged parameters coupled",
+        "note": "maps that put two kinematic variables (or a kinematic variable and a parameter) under one name are excluded (no well-defined right-hand side) and counted",
+        "design": "3/C17",
+    },
+})
+
 NOT_YET = "check not implemented yet at this commit (planned, see DESIGN.md section 7)"
 
 
